@@ -8,6 +8,7 @@ Open Scope N_scope.
 (* the handler ladders that are modelled by hand are the ones in the source (canonical
    hashes of their bodies, logging removed, regenerated on every run) *)
 Theorem C05_source_facts :
+  canon_TFTPHandler_setup = "11138bc950979c22"%string /\ handler_buffers_per_request = true /\
   canon_TFTPHandler_handle = "47b32213fc3a30c7"%string /\
   canon_TFTPHandler_finish = "833065fdf2cdff87"%string /\
   canon_TFTPBaseHandler_do_RRQ = "becd4f49731b7d53"%string /\
